@@ -359,7 +359,11 @@ func main() {
 	redirectIdentCall(fe, "forkAndExecInChild", "vkForkAndExec")
 	goToCall(fe, "vkGo")
 
-	for _, fs := range [][]*file{us, ct, fe} {
+	// --- ptracer: hook between a tracee's stop and the tracer's next request
+	pt := load(filepath.Join(root, "ptracer"))
+	redirectSel(pt, "unix", "Wait4", "vhWait4")
+
+	for _, fs := range [][]*file{us, ct, fe, pt} {
 		for _, f := range fs {
 			if err := f.flush(); err != nil {
 				fmt.Fprintln(os.Stderr, "seamgen:", err)
